@@ -492,13 +492,14 @@ class _Leave(Exception):
     pass
 
 
-def run_ctx(cid: str, evs: List[str]) -> List[str]:
+def run_ctx(cid: str, evs: List[str], info: Optional[Dict[str, Any]] = None) -> List[str]:
     """Execute real nested `with disable_message_validation(ignore)` blocks; after every event record whether an
     out-of-range assignment is refused (behavioural flag) - and that the context variable says the same."""
     W = world()
     V = W.V
     _flag_force_on(V)
     flags: List[str] = []
+    trouble: List[str] = []        # the context manager itself raised (reported as a correspondence difference)
 
     keeper = W.N()                 # one message that lives through the whole history
     views: List[Tuple[str, Any]] = []   # array views bound at earlier points of the history (possibly inside a block)
@@ -544,14 +545,24 @@ def run_ctx(cid: str, evs: List[str]) -> List[str]:
             ev = evs[i]
             if ev[0] == "e":
                 how = None
+                entered = False
                 try:
                     with V.disable_message_validation(ev == "e1"):
+                        entered = True
                         probe()
                         i, how = body(i + 1)
                         if how == "xe":
                             raise _Leave()
                 except _Leave:
                     pass
+                except Exception as e:  # noqa: BLE001  the context manager itself raised (entering or leaving): an
+                    # observation, never a crash of the harness.  The walk goes on, so that the flags stay aligned with
+                    # the events and the Spec still judges what the switch does afterwards.
+                    trouble.append(f"event {i} ({ev}): disable_message_validation raised {type(e).__name__} "
+                                   f"while {'leaving' if entered else 'entering'} the block")
+                    if not entered:
+                        probe()
+                        i, how = body(i + 1)
                 if how is not None:
                     probe()
             else:
@@ -562,6 +573,8 @@ def run_ctx(cid: str, evs: List[str]) -> List[str]:
         body(0)
     finally:
         _flag_force_on(V)
+    if info is not None:
+        info["manager_raised"] = trouble
     return [f"CTX {cid}", "EV " + " ".join(evs), "FLAGS " + " ".join(flags), "END"]
 
 
